@@ -96,7 +96,7 @@ var Streams = map[string]Stream{
 		Weights: weights(map[string]int{"newbatch": 8, "exbatch": 14, "setrelbatch": 8, "removeentities": 8, "newentities": 6, "filternew": 8,
 			"obsnew": 2, "obsreg": 2}), Invalid: 2, MaxEnt: 30, WithDump: true, Scenarios: 6},
 	"lock": {Name: "lock", Codes: [][]int{layoutSmall}, Caps: [][2]int{{2, 2}}, Ops: 80,
-		Weights: weights(map[string]int{"queryopen": 16, "querynext": 14, "queryclose": 12, "querycount": 3, "filternew": 6, "write": 6, "mapset": 4, "emit": 3}), Invalid: 2, MaxEnt: 12, WithDump: true},
+		Weights: weights(map[string]int{"lockburst": 1, "queryopen": 16, "querynext": 14, "queryclose": 12, "querycount": 3, "filternew": 6, "write": 6, "mapset": 4, "emit": 3}), Invalid: 2, MaxEnt: 12, WithDump: true},
 	"observers": {Name: "observers", Codes: [][]int{layoutSmall, layoutRel}, Caps: [][2]int{{1, 1}, {4, 2}}, Ops: 70,
 		Weights: weights(map[string]int{"obsnew": 10, "obsreg": 10, "obsunreg": 5, "emit": 6, "mapset": 6, "exbatch": 6, "setrelbatch": 4, "newbatch": 4, "removeentities": 4}), Invalid: 2, MaxEnt: 16, WithDump: true, Scenarios: 6},
 	"misuse": {Name: "misuse", Codes: [][]int{layoutSmall, layoutRel}, Caps: [][2]int{{1, 1}, {2, 2}}, Ops: 60,
@@ -128,6 +128,9 @@ type Gen struct {
 func NewGen(r *Rng, s *Sim, st Stream) *Gen {
 	return &Gen{R: r, S: s, St: st, openQueries: map[int]bool{}, registered: map[int]bool{}, Scenarios: st.Scenarios}
 }
+
+// Pending is the number of queued scenario operations (a script is not cut in the middle of a scenario).
+func (g *Gen) Pending() int { return len(g.queue) }
 
 // Epoch is the index of the first handle issued since the last successful Reset.
 func (g *Gen) Epoch() int { return g.epoch }
@@ -357,6 +360,11 @@ func (g *Gen) queryRelsMisuse(fi int) [][2]int64 {
 		if len(cand) > 0 {
 			out = append(out, [2]int64{int64(cand[g.R.Intn(len(cand))]), g.pickTarget(false)})
 		}
+	}
+	if g.R.Chance(g.St.Invalid) {
+		// a relation given by index (ecs.RelIdx): rejected while the relations are converted, before the
+		// query takes its lock bit
+		out = append(out, [2]int64{int64(1000 + g.R.Intn(2)), g.pickTarget(false)})
 	}
 	return out
 }
@@ -787,6 +795,51 @@ func (g *Gen) build(kind string) []int64 {
 		}
 		g.openQueries[len(g.S.Queries)] = true
 		return cat([]int64{19, int64(fi)}, encPairs(g.queryRelsMisuse(fi)))
+	case "lockburst":
+		// 62..66 simultaneously open queries (the lock has 64 bits: the 65th and 66th are rejected), a
+		// structural call in the middle, then all of them closed in a random order
+		fi, ok := g.filterIdx(false)
+		if !ok || len(g.openQueries) > 0 || g.S.W.IsLocked() {
+			return nil
+		}
+		n := 62 + g.R.Intn(5)
+		var opened []int
+		for i := 0; i < n; i++ {
+			g.queue = append(g.queue, func() []int64 {
+				opened = append(opened, len(g.S.Queries))
+				g.openQueries[len(g.S.Queries)] = true
+				return cat([]int64{19, int64(fi)}, encPairs(nil))
+			})
+		}
+		g.queue = append(g.queue, func() []int64 { return []int64{0} })
+		perm := make([]int, n)
+		for i := range perm {
+			perm[i] = i
+		}
+		for i := n - 1; i > 0; i-- {
+			j := g.R.Intn(i + 1)
+			perm[i], perm[j] = perm[j], perm[i]
+		}
+		closed := map[int]bool{}
+		for _, k := range perm {
+			k := k
+			g.queue = append(g.queue, func() []int64 {
+				if k >= len(opened) {
+					return nil
+				}
+				qi := opened[k]
+				if qi >= len(g.S.Queries) || closed[qi] {
+					return nil
+				}
+				closed[qi] = true
+				delete(g.openQueries, qi)
+				if g.R.Chance(15) {
+					return []int64{20, int64(qi)}
+				}
+				return []int64{21, int64(qi)}
+			})
+		}
+		return g.NextOp()
 	case "querynext", "queryclose", "querycount", "queryat", "queryentity":
 		if len(g.S.Queries) == 0 {
 			return nil
